@@ -559,6 +559,23 @@ async fn main(plan: Plan) -> Outcome {
             } else {
                 out.violation("c07.spurious_error", format!("stream failed although the server failed no page: {ctx}"));
             }
+            // "Transient failures that the retry policy retries": with the default policy an
+            // idempotent page request that meets Overloaded / IsBootstrapping / ServerError is
+            // retried on the next target, each page with a plan of its own. If only such
+            // failures happened in this query (no reset took a connection away, no timeout),
+            // the stream may fail at page p only after EVERY node failed the request for p.
+            if default_retry && speculative.is_none() && req_timeout.is_none() {
+                if let Some(fp) = failed_page {
+                    let only_retryable = reqs.iter().all(|r| matches!(r.fault, PageFault::None | PageFault::Slow | PageFault::Retryable(_)));
+                    let tried: std::collections::BTreeSet<usize> = reqs.iter().filter(|r| r.page == Some(fp)).map(|r| r.node).collect();
+                    if only_retryable && tried.len() < plan.nodes {
+                        out.violation(
+                            "c07.gave_up_with_targets_left",
+                            format!("the stream failed at page {fp} after trying {} of {} nodes although every failure was one the policy retries on the next target: {ctx}", tried.len(), plan.nodes),
+                        );
+                    }
+                }
+            }
         } else if consumer == 2 {
             // (d) early drop: the producer stops; it may have prefetched a little.
             // Distinct pages (retries of a fetch already in progress are the same page request).
